@@ -237,8 +237,10 @@ namespace OP2Utility::Archive
 		clmFileWriter.Write(indexEntries);
 
 		// Copy files into the archive
+		// Note: Each stream position is at the start of the wave data. Copy only the data chunk, not any chunks following it.
 		for (std::size_t i = 0; i < header.packedFilesCount; ++i) {
-			clmFileWriter.Write(*filesToPackReaders[i]);
+			auto slice = filesToPackReaders[i]->Slice(indexEntries[i].dataLength);
+			clmFileWriter.Write(slice);
 		}
 	}
 
